@@ -177,6 +177,79 @@ func projRoutes(rs []*dhcpv4.Route) []any {
 	return l
 }
 
+// richBytes: item contents over their whole domain, not only short random bytes: lengths up to what one length octet
+// carries, and contents that look like something else (printable text, zeros, all ones)
+func richBytes(rng *rand.Rand, min, max int) []byte {
+	n := pick(rng, 1, 2, 5, 10, 31, 32, 33, 47, 64, 100, 126, 127, 128, 200, 255, 1+rng.Intn(12), 1+rng.Intn(12))
+	if n < min {
+		n = min
+	}
+	if n > max {
+		n = max
+	}
+	b := randBytes(rng, n)
+	switch rng.Intn(4) {
+	case 0:
+		for i := range b {
+			b[i] = byte(32 + rng.Intn(95)) // printable ASCII
+		}
+	case 1:
+		for i := range b {
+			b[i] = byte(pick(rng, 0, 255, 0, 255, rng.Intn(256)))
+		}
+	}
+	return b
+}
+
+// textRaw is structuredRaw whose free bytes - and, where the layout allows, whose length octets - are printable ASCII:
+// an accessor must not take a well-formed binary value for text because it happens to look like text
+func textRaw(rng *rand.Rand, code uint8, L int) []byte {
+	b := make([]byte, L)
+	for i := range b {
+		b[i] = byte(32 + rng.Intn(95))
+	}
+	switch code {
+	case 77: // user classes whose length octets are printable too: items of 32..126 bytes
+		i := 0
+		for i < L {
+			n := pick(rng, 32, 33, 40, 47, 64, 100, 126)
+			if i+1+n > L {
+				n = L - i - 1 // the last item takes what is left (short items make the length octet unprintable)
+			}
+			b[i] = byte(n)
+			i += 1 + n
+		}
+	case 124:
+		i := 0
+		for i+4 < L {
+			n := pick(rng, 32, 40, 64, 100)
+			if i+5+n > L {
+				n = L - i - 5
+			}
+			b[i+4] = byte(n)
+			i += 5 + n
+		}
+	case 82:
+		i := 0
+		for i+1 < L {
+			n := pick(rng, 32, 40, 64, 100)
+			if i+2+n > L {
+				n = L - i - 2
+			}
+			b[i], b[i+1] = byte(pick(rng, 49, 50, 65)), byte(n)
+			i += 2 + n
+		}
+	case 121:
+		i := 0
+		for i < L {
+			w := 32
+			b[i] = byte(w)
+			i += 1 + 4 + 4
+		}
+	}
+	return b
+}
+
 // structured raw values for an accessor kind (valid encodings and near misses)
 func structuredRaw(rng *rand.Rand, code uint8, L int) []byte {
 	b := randBytes(rng, L)
@@ -283,6 +356,16 @@ func genC17(o *Out, rng *rand.Rand, tier string) {
 			if q, ok := packetWith(a.code, raw); ok {
 				o.Emit(map[string]any{"op": "Acc", "acc": a.name, "absent": false, "raw": B(raw), "res": callAcc(a, q)}, "raw-long",
 					append([]byte(a.name), raw...), true)
+			}
+		}
+		// values that are printable text from the first to the last octet, length octets included
+		for _, L := range []int{1, 4, 8, 16, 33, 34, 41, 48, 64, 65, 66, 67, 80, 96, 100, 127, 128, 130, 160, 200, 254} {
+			for k := 0; k < 1+variants/3; k++ {
+				raw := textRaw(rng, a.code, L)
+				if q, ok := packetWith(a.code, raw); ok {
+					o.Emit(map[string]any{"op": "Acc", "acc": a.name, "absent": false, "raw": B(raw), "res": callAcc(a, q)}, "raw-text",
+						append([]byte(a.name), raw...), true)
+				}
 			}
 		}
 	}
@@ -396,7 +479,7 @@ func genC17(o *Out, rng *rand.Rand, tier string) {
 		setget("DNS", dhcpv4.OptDNS(ips...), ipl)
 		setget("NTPServers", dhcpv4.OptNTPServers(ips...), ipl)
 		setget("NetBIOSNameServers", dhcpv4.OptNetBIOSNameServers(ips...), ipl)
-		s := randNoNul(rng, 1+rng.Intn(30))
+		s := randNoNul(rng, pick(rng, 1+rng.Intn(30), 1+rng.Intn(30), 64, 128, 255))
 		setget("DomainName", dhcpv4.OptDomainName(s), B([]byte(s)))
 		setget("HostName", dhcpv4.OptHostName(s), B([]byte(s)))
 		setget("RootPath", dhcpv4.OptRootPath(s), B([]byte(s)))
@@ -448,7 +531,7 @@ func genC17(o *Out, rng *rand.Rand, tier string) {
 		var ucs []string
 		ul := []any{}
 		for j := 1 + rng.Intn(3); j > 0; j-- {
-			u := string(randBytes(rng, 1+rng.Intn(10)))
+			u := string(richBytes(rng, 1, 255))
 			ucs = append(ucs, u)
 			ul = append(ul, B([]byte(u)))
 		}
@@ -456,14 +539,17 @@ func genC17(o *Out, rng *rand.Rand, tier string) {
 		var ids []dhcpv4.VIVCIdentifier
 		vl := []any{}
 		for j := 1 + rng.Intn(3); j > 0; j-- {
-			id := dhcpv4.VIVCIdentifier{EntID: iana.EnterpriseID(rng.Uint32()), Data: randBytes(rng, rng.Intn(10))}
+			id := dhcpv4.VIVCIdentifier{EntID: iana.EnterpriseID(rng.Uint32()), Data: richBytes(rng, 0, 120)}
+			if rng.Intn(3) == 0 {
+				id.Data = randBytes(rng, rng.Intn(3))
+			}
 			ids = append(ids, id)
 			vl = append(vl, map[string]any{"ent": u32b(uint32(id.EntID)), "data": B(id.Data)})
 		}
 		setget("VIVC", dhcpv4.OptVIVC(ids...), vl)
 		sub := dhcpv4.Options{}
 		for j := 1 + rng.Intn(3); j > 0; j-- {
-			sub[uint8(1+rng.Intn(200))] = randBytes(rng, 1+rng.Intn(6))
+			sub[uint8(1+rng.Intn(200))] = richBytes(rng, 1, 80)
 		}
 		var subl []dhcpv4.Option
 		for c, v := range sub {
